@@ -64,6 +64,18 @@ def judge_rendering(text: str, lines):
     return out
 
 
+def scoping_ns(ids):
+    from dznpy.scoping import NamespaceIds  # pylint: disable=import-outside-toplevel
+    return NamespaceIds(list(ids))
+
+
+def _inner(block, head: int, tail: int):
+    """The lines a scope block shows between its opening and closing lines, as a TextBlock."""
+    from dznpy.text_gen import TextBlock  # pylint: disable=import-outside-toplevel
+    lines = str(block).split('\n')[:-1]
+    return TextBlock(lines[head:len(lines) - tail])
+
+
 def eval_case(case: dict) -> dict:
     """case: {'content': enc, 'extend': enc or None}"""
     common.import_dznpy()
@@ -112,7 +124,11 @@ def eval_case(case: dict) -> dict:
                  ('chunk-no-appendix', lambda: text_gen.chunk(com, None)),
                  ('chunk-empty-appendix', lambda: text_gen.chunk(com, '')),
                  ('chunk-text-appendix', lambda: text_gen.chunk(com, 'int x;')),
-                 ('cond_chunk', lambda: text_gen.cond_chunk(None, com, None, None))]
+                 ('cond_chunk', lambda: text_gen.cond_chunk(None, com, None, None)),
+                 ('namespace-contents', lambda: _inner(cpp_gen.Namespace(
+                     scoping_ns(['A', 'B']), com), 1, 1)),
+                 ('struct-contents', lambda: _inner(cpp_gen.Struct('S', com), 2, 1)),
+                 ('class-contents', lambda: _inner(cpp_gen.Class('K', com), 2, 1))]
         how_pour, pour = pours[len(lines) % len(pours)]
         if any(ln.strip() for ln in lines):
             block = pour()
@@ -263,6 +279,7 @@ def main(tier: str) -> int:
                 'extended_after_render', 'changed_after_render_via_lines-list',
                 'changed_after_render_via_lines-setter', 'changed_after_render_via_trim',
                 'poured_chunk-no-appendix', 'poured_in-list', 'poured_cond_chunk',
+                'poured_namespace-contents', 'poured_struct-contents',
                 'build_pairs', 'files_compared',
                 'lexer_residues_compared')
     for _item, res in run.pmap(_worker, [(run.seed, i, per) for i in range(total // per)]):
